@@ -351,8 +351,25 @@ def check(ctx):
 
     # ---- R5
     hs = [h for n in walk_no_nested(ps) if isinstance(n, ast.Try) for h in n.handlers]
-    ok = bool(hs) and any(h.name and any(isinstance(n_, ast.Attribute) and n_.attr == 'lineno' and isinstance(n_.value, ast.Name) and n_.value.id == h.name for n_ in ast.walk(h))
-                          and 'ParseError' in ast.unparse(h) for h in hs)
+    def reads_lineno(scope, var):
+        return any(isinstance(n_, ast.Attribute) and n_.attr == 'lineno' and isinstance(n_.value, ast.Name) and n_.value.id == var for n_ in ast.walk(scope))
+
+    def handler_reports(h):
+        if not h.name:
+            return False
+        if reads_lineno(h, h.name) and 'ParseError' in ast.unparse(h):
+            return True
+        # ... through a module helper that is handed the exception and builds the ParseError
+        for c_ in ast.walk(h):
+            if isinstance(c_, ast.Call) and isinstance(c_.func, ast.Name) and any(isinstance(a_, ast.Name) and a_.id == h.name for a_ in c_.args):
+                g_ = ps._mod.resolve_name(c_.func.id)
+                if isinstance(g_, ast.FunctionDef):
+                    i_ = [isinstance(a_, ast.Name) and a_.id == h.name for a_ in c_.args].index(True)
+                    gp_ = flow.param_names(g_)
+                    if i_ < len(gp_) and reads_lineno(g_, gp_[i_]) and 'ParseError' in (ast.unparse(h) + ast.unparse(g_)):
+                        return True
+        return False
+    ok = bool(hs) and any(handler_reports(h) for h in hs)
     ctx.instance('C14.R5', 'parse_string reports e.lineno of the exception', 'ok' if ok else 'VIOLATION', node=ps, file=F)
     if not ok:
         ctx.violation('C14.R5', F, ps, Model.qual(ps), 'the reported line is no longer the line of the parse exception', stmt='e.lineno')
